@@ -109,9 +109,15 @@ Observe(a, o) ==
     /\ hist' = Append(hist, <<a, o, <<>>>>)
     /\ UNCHANGED objs
 
-Next == \/ \E o \in Ids, S \in SUBSET V : Condition(o, S)
-        \/ \E o \in Ids : ToLikelihood(o) \/ CopyEnableFD(o) \/ ApplyModel(o) \/ CondFactor(o) \/ MutateCopy(o)
-        \/ \E o \in Ids, a \in {"logd", "gradient", "sample", "run_sampler", "gibbs", "bad_call"} : Observe(a, o)
+\* one NAMED disjunct per action, so that TLC's coverage report names each of them (an action never taken fails the run)
+DoCondition    == \E o \in Ids, S \in SUBSET V : Condition(o, S)
+DoToLikelihood == \E o \in Ids : ToLikelihood(o)
+DoCopyEnableFD == \E o \in Ids : CopyEnableFD(o)
+DoApplyModel   == \E o \in Ids : ApplyModel(o)
+DoCondFactor   == \E o \in Ids : CondFactor(o)
+DoMutateCopy   == \E o \in Ids : MutateCopy(o)
+DoObserve      == \E o \in Ids, a \in {"logd", "gradient", "sample", "run_sampler", "gibbs", "bad_call"} : Observe(a, o)
+Next == DoCondition \/ DoToLikelihood \/ DoCopyEnableFD \/ DoApplyModel \/ DoCondFactor \/ DoMutateCopy \/ DoObserve
 Spec == Init /\ [][Next]_vars
 
 \* ---- properties ------------------------------------------------------------------------
